@@ -72,6 +72,12 @@ func NewStructElement(key px.Value, value px.Type) *StructElement {
 			name = strType.value
 			keyType = key
 		}
+	case *NotUndefType:
+		// how a required key is printed when the value type accepts Undef
+		if strType, ok := key.typ.(*vcStringType); ok {
+			name = strType.value
+			keyType = strType
+		}
 	}
 
 	if keyType == nil || name == `` {
